@@ -221,3 +221,24 @@ pub(super) const LOCAL_SIDE_METADATA_BASE_OFFSET_FOR_LAYOUT: usize = 0;
 #[cfg(target_pointer_width = "64")]
 pub(super) const LOCAL_SIDE_METADATA_BASE_OFFSET_FOR_LAYOUT: usize =
     side_metadata_offset_after(&super::spec_defs::LAST_GLOBAL_SIDE_METADATA_SPEC);
+
+/// Forwarders for the external verification harnesses (see `crate::verif_hooks`). One call each, no logic.
+#[cfg(any(kani, mmtk_verif))]
+pub mod verif_hooks_layout {
+    use super::*;
+    pub mod spec_defs {
+        pub use crate::util::metadata::side_metadata::spec_defs::*;
+    }
+    pub fn set_vm_side_metadata_specs(specs: &[SideMetadataSpec]) {
+        super::set_vm_side_metadata_specs(specs)
+    }
+    pub fn total_side_metadata_bytes() -> usize {
+        super::total_side_metadata_bytes()
+    }
+    pub fn global_side_metadata_bytes() -> usize {
+        super::global_side_metadata_bytes()
+    }
+    #[cfg(target_pointer_width = "64")]
+    pub const LOCAL_SIDE_METADATA_BASE_OFFSET_FOR_LAYOUT: usize =
+        super::LOCAL_SIDE_METADATA_BASE_OFFSET_FOR_LAYOUT;
+}
